@@ -713,9 +713,22 @@ func (fr *Frame) execRecv(st *State, x *ssa.UnOp, ch *Val) *Val {
 	}
 	if x.CommaOk {
 		ok := Fresh("recvok", SBool)
+		fr.noteSeenClosed(st, ch, Not(ok))
 		return &Val{K: VTuple, T: x.Type(), Fs: []*Val{v, scalar(types.Typ[types.Bool], ok)}}
 	}
 	return v
+}
+
+// noteSeenClosed: ghost chseen(ch) — this goroutine has itself observed the channel closed (a
+// receive returned ok == false). Unlike chclosed it is not subject to interference.
+func (fr *Frame) noteSeenClosed(st *State, ch *Val, cond *Term) {
+	gf, ok := fr.c.eng.ghostFields["chseen"]
+	if !ok {
+		return
+	}
+	h := Heap{st: st}
+	old := h.loadGhost(ch.X, gf).X
+	h.storeGhost(ch.X, gf, Or(old, cond))
 }
 
 func (fr *Frame) execSend(st *State, x *ssa.Send) {
@@ -743,6 +756,11 @@ func (fr *Frame) execSelect(st *State, x *ssa.Select) *Val {
 		if s.Dir == types.SendOnly && hasGhost {
 			closed := Heap{st: st}.loadGhost(ch.X, gf).X
 			fr.c.oblige(fr, st, "safe", fmt.Sprintf("safe:selectsend#%d.%d", fr.c.ordinals[x], i), Implies(Eq(idx, Num(int64(i))), Not(closed)), nil, x.String(), true)
+		}
+	}
+	for i, s := range x.States {
+		if s.Dir == types.RecvOnly {
+			fr.noteSeenClosed(st, fr.get(st, s.Chan), And(Eq(idx, Num(int64(i))), Not(vals[1].X)))
 		}
 	}
 	for i := 2; i < tt.Len(); i++ {
